@@ -413,7 +413,23 @@ def kernel_crosscheck(ctx, cases, outs):
     bad = [k for k, b in zip(idx, r) if b is not True]
     if bad:
         return "vm_compute evaluation of Model.Recon.entry_recon differs from the implementation on case %d" % bad[0], len(idx)
-    return None, len(idx)
+    # the extracted checker against the kernel, on accepted outputs and on perturbed ones (by uniqueness of the
+    # reconstruction every perturbed output must be rejected, whatever certificate accompanies it)
+    cargs, cexp = [], []
+    for n, k in enumerate([k for k in idx if not cases[k].get("bad")][:24]):
+        c, R = cases[k], outs[k]["R"]
+        cargs.append([c["seed"], c["mask"], _fp_grid(c), R, _levels(c, R)]); cexp.append(1)
+        i, j = n % len(R), (n // 2) % len(R[0])
+        R2 = [list(row) for row in R]
+        R2[i][j] += 1 if n % 2 else -1
+        cargs.append([c["seed"], c["mask"], _fp_grid(c), R2, _levels(c, R2)]); cexp.append(0)
+    ext = ctx.run_model("entry_check", cargs)
+    if ext != cexp:
+        return "extracted recon_check accepts a perturbed output or rejects a correct one (harness self-test)", len(idx)
+    r2 = ctx.coq_eval_eq("Spec.ReconSpec", "entry_check", cargs, cexp, tag="chk")
+    if not all(b is True for b in r2):
+        return "vm_compute evaluation of Spec.ReconSpec.entry_check differs from the extracted checker", len(idx)
+    return None, len(idx) + len(cargs)
 
 
 def search_cases(ctx, rnd):
